@@ -193,7 +193,8 @@ func loadNodes(env *env, names []string) (
 	}
 	var dirs []string
 	for dir := range repoMap.Src {
-		dirs = append(dirs, dir)
+		// A repo directory is a package path under the source tree.
+		dirs = append(dirs, makeRelPath("", dir))
 	}
 	sort.Strings(dirs)
 
